@@ -200,6 +200,88 @@ pub fn iter_event(bytes: &[u8], run_unchecked: bool) -> J {
     }).unwrap_or_else(pj).tap("stream", false));
     json!({"ev":"iter","b":bytes_j(bytes),"res":res})
 }
+/// schema text derived from the implementation's own parse (generator heuristic): a subset of the document's keys with
+/// defaults, absent keys, nested object schemas
+fn make_schema(rng: &mut Rng, v: &Value, depth: usize, out: &mut Vec<u8>) {
+    let defaults: &[&[u8]] = &[b"null", b"1", b"\"d\"", b"[]", b"{}", b"true", b"[1,2]"];
+    match sonic_rs::JsonContainerTrait::as_object(v) {
+        Some(o) if depth < 3 && !rng.chance(1, 8) => {
+            out.push(b'{');
+            let mut first = true;
+            for (k, x) in o.iter() {
+                if rng.chance(1, 2) { continue; }
+                if !first { out.push(b','); } first = false;
+                out.extend_from_slice(sonic_rs::to_string(k).unwrap().as_bytes());
+                out.push(b':');
+                if sonic_rs::JsonContainerTrait::as_object(x).is_some() && rng.chance(2, 3) { make_schema(rng, x, depth + 1, out); } else { out.extend_from_slice(*rng.pick(defaults)); }
+            }
+            for i in 0..rng.below(3) { if !first { out.push(b','); } first = false; out.extend_from_slice(format!("\"absent{}\":", i).as_bytes()); out.extend_from_slice(*rng.pick(defaults)); }
+            out.push(b'}');
+        }
+        _ => out.extend_from_slice(*rng.pick(defaults)),
+    }
+}
+/// (document, schema) built together: two levels of objects, nested schema objects that are often fully
+/// satisfied by the data and followed by later members of the parent
+pub fn schema_doc(rng: &mut Rng) -> (Vec<u8>, Vec<u8>) {
+    let scalars: &[&[u8]] = &[b"1", b"\"v\"", b"true", b"null", b"[1,{\"a\":2}]", b"-2.5", b"{}", b"[]"];
+    let defaults: &[&[u8]] = &[b"null", b"0", b"\"d\"", b"[]", b"{}"];
+    let pool = ["a", "b", "c", "d", "e"];
+    let mut doc = vec![b'{'];
+    let mut sch = vec![b'{'];
+    let (mut fd, mut fs) = (true, true);
+    let nkeys = rng.range(1, 5);
+    let mut used: Vec<&str> = Vec::new();
+    for _ in 0..nkeys {
+        let k = *rng.pick(&pool);
+        if used.contains(&k) { continue; }
+        used.push(k);
+        if !fd { doc.push(b','); if rng.chance(1, 4) { doc.push(b' '); } } fd = false;
+        doc.extend_from_slice(format!("\"{}\":", k).as_bytes());
+        let in_schema = rng.chance(7, 10);
+        if in_schema { if !fs { sch.push(b','); } fs = false; sch.extend_from_slice(format!("\"{}\":", k).as_bytes()); }
+        if rng.chance(1, 2) {
+            // nested object
+            doc.push(b'{');
+            if in_schema { sch.push(b'{'); }
+            let full = rng.chance(1, 2);
+            let (mut f2d, mut f2s) = (true, true);
+            let mut used2: Vec<&str> = Vec::new();
+            for _ in 0..rng.range(1, 3) {
+                let k2 = *rng.pick(&pool);
+                if used2.contains(&k2) { continue; }
+                used2.push(k2);
+                if !f2d { doc.push(b','); } f2d = false;
+                doc.extend_from_slice(format!("\"{}\":", k2).as_bytes());
+                doc.extend_from_slice(*rng.pick(scalars));
+                if in_schema && (full || rng.chance(1, 2)) { if !f2s { sch.push(b','); } f2s = false; sch.extend_from_slice(format!("\"{}\":", k2).as_bytes()); sch.extend_from_slice(*rng.pick(defaults)); }
+            }
+            if in_schema && !full && rng.chance(1, 2) { if !f2s { sch.push(b','); } sch.extend_from_slice(b"\"zz\":7"); }
+            doc.push(b'}');
+            if in_schema { sch.push(b'}'); }
+        } else {
+            doc.extend_from_slice(*rng.pick(scalars));
+            if in_schema { sch.extend_from_slice(*rng.pick(defaults)); }
+        }
+    }
+    if rng.chance(1, 3) { if !fs { sch.push(b','); } sch.extend_from_slice(b"\"absent\":[0]"); }
+    doc.push(b'}');
+    sch.push(b'}');
+    (doc, sch)
+}
+pub fn schema_event(bytes: &[u8], schema: &[u8]) -> J {
+    let mut res = serde_json::Map::new();
+    let run = |carrier: u8| -> J {
+        let sv: Value = match sonic_rs::from_slice(schema) { Ok(v) => v, Err(_) => return json!({"ok":false,"panic":false,"badschema":true}) };
+        let r = if carrier == 0 { sonic_rs::get_by_schema(bytes, sv) } else { let b = bytes::Bytes::copy_from_slice(bytes); sonic_rs::get_by_schema(&b, sv) };
+        match r { Ok(v) => json!({"ok":true,"panic":false,"v":dump_value(&v).unwrap_or_else(|e| json!({"t":"inconsistent","why":e}))}),
+                  Err(e) => json!({"ok":false,"panic":false,"err":err_j(&e)}) }
+    };
+    res.insert("get_by_schema_slice".into(), catch(|| run(0)).unwrap_or_else(|p| json!({"ok":false,"panic":true,"msg":p})));
+    res.insert("get_by_schema_bytes".into(), catch(|| run(1)).unwrap_or_else(|p| json!({"ok":false,"panic":true,"msg":p})));
+    json!({"ev":"schema","b":bytes_j(bytes),"schema":bytes_j(schema),"res":res})
+}
+
 trait Tap { fn tap(self, kind: &str, unchecked: bool) -> J; }
 impl Tap for J { fn tap(mut self, kind: &str, unchecked: bool) -> J { self["kind"] = json!(kind); self["unchecked"] = json!(unchecked); self } }
 
@@ -300,7 +382,12 @@ pub fn record(args: &[String]) -> i32 {
                 if parsed.is_none() { ps.truncate(1); }
                 many_event(&doc, &consistent(ps), wf)
             }
-            _ => { *counts.entry("iter").or_default() += 1; iter_event(&doc, wf) }
+            8 => { *counts.entry("iter").or_default() += 1; iter_event(&doc, wf) }
+            _ => match &parsed {
+                Some(_) if rng.chance(1, 2) => { *counts.entry("schema").or_default() += 1; let (d, sc) = schema_doc(&mut rng); schema_event(&d, &sc) }
+                Some(v) => { *counts.entry("schema").or_default() += 1; let mut sc = Vec::new(); make_schema(&mut rng, v, 0, &mut sc); schema_event(&doc, &sc) }
+                None => { *counts.entry("iter").or_default() += 1; iter_event(&doc, wf) }
+            },
         };
         if ev.to_string().contains("\"panic\":true") { panics += 1; }
         let mut ev = ev;
